@@ -83,6 +83,31 @@ def build_inputs(chk, n_pairs, n_triples):
     for name, a, b, info in pairs:
         inputs.append(("diff", {"a": a, "d": diff_notebooks(a, b)}))
     inputs.append(("diff", {"a": pairs[0][1], "d": []}))
+    # text that is / becomes / stops being a base64 payload (the renderer snips those)
+    import copy
+    import nbformat
+    blob, blob2 = concretize.B64A + concretize.B64B, concretize.B64B + concretize.B64C
+    texts = [blob, blob + "\n", blob + "\nand a line of prose\n", "prose first\n" + blob, "just some prose\nsecond line\n", blob2]
+    basenb = nbformat.v4.new_notebook()
+    basenb.nbformat_minor = 4
+    k = 0
+    for x in texts:
+        for y in texts:
+            if x == y or (k % 2 and not chk.quick is False):
+                k += 1
+                continue
+            k += 1
+            a = copy.deepcopy(basenb)
+            c = nbformat.v4.new_code_cell("print(payload)")
+            c.pop("id", None)
+            c.outputs = [nbformat.v4.new_output("stream", name="stdout", text=x),
+                         nbformat.v4.new_output("display_data", data={"text/plain": x, "image/png": concretize.B64A})]
+            a.cells = [c]
+            b = copy.deepcopy(a)
+            b.cells[0].outputs[0]["text"] = y
+            b.cells[0].outputs[1]["data"]["text/plain"] = y
+            if concretize.is_valid(a) and concretize.is_valid(b):
+                inputs.append(("diff", {"a": a, "d": diff_notebooks(a, b)}))
     for name, a, b, info in pairs[:max(3, n_pairs // 4)]:
         inputs.append(("notebook", {"nb": b}))
     triples = corp.triples(n_enum=n_triples, n_random=n_triples // 2, salt="c16")
